@@ -108,6 +108,17 @@ func families(thorough bool) []family {
 		f1.archives = append(f1.archives, zipgen.Archive{Members: []M{m}})
 	}
 	fams = append(fams, f1)
+	// F1h: central directory entries longer than 64 KiB (every field within its 16 bits)
+	huge := M{Method: zipgen.Stored, Size: 300, Extra: zipgen.ExtraHuge, Comment: 2}
+	f1h := family{name: "F1h-huge-directory-entry", what: "entries whose name+extra+comment exceed 65535 bytes (30004-byte extra field + 40000-byte comment), alone, first of two, last of two, with and without descriptor"}
+	f1h.archives = append(f1h.archives,
+		zipgen.Archive{Members: []M{huge}},
+		zipgen.Archive{Members: []M{huge, reducedR[1]}},
+		zipgen.Archive{Members: []M{reducedR[0], huge}},
+		zipgen.Archive{Members: []M{{Method: zipgen.Deflate, Size: 300, Desc: zipgen.Desc16, Extra: zipgen.ExtraHuge, Comment: 2, Name: zipgen.NameLong}}},
+		zipgen.Archive{Members: []M{{Method: zipgen.Stored, Size: 1, Extra: zipgen.ExtraHuge}, {Method: zipgen.Stored, Size: 1, Comment: 2}}},
+	)
+	fams = append(fams, f1h)
 	// F1b: single member (reduced) x all archive-level features
 	lv1 := archLevels([]int{0}, []int{0, 1, 2}, false)
 	f1b := family{name: "F1b-single-archlevel", what: fmt.Sprintf("1 member from the reduced alphabet R (%d shapes) x EOCD comment{none,10} x ZIP64 end{none,masked,unmasked} x gap before directory{no,yes}", len(reducedR))}
